@@ -161,7 +161,8 @@ def run(tier, seed, build):
                         if row[0] == "on-call-result":
                             sig = "inlined-through-call-on-call-result"
                         elif row[2] != "none":
-                            sig = f"inlined-although-shadowed-by-{row[2]}"
+                            form = "bare" if row[0] == "bare" else f"{row[0]}-{row[1]}"
+                            sig = f"inlined-although-shadowed-by-{row[2]}:{form}"
                         else:
                             sig = f"inlined-though-unresolvable:{row[0]}:{row[1]}"
                         res.count("verdict:" + sig)
